@@ -341,6 +341,8 @@ class Agent(dbus.service.Object):
 
             for blk in ctr.block_type(HopCountBlock):
                 blk.payload.count += 1
+                # force the block-type-specific data to be encoded again
+                blk.delfieldval('btsd')
 
             for blk in tuple(ctr.block_type(BundleAgeBlock)):
                 ctr.remove_block(blk)
